@@ -185,7 +185,7 @@ GenListsThorough == {L0, L2, L3, L4, L5, L7, L9}
 GenListsWide == {L0, L1, L2, L3, L4, L5, L6, L7, L8, L9}
 \* <<H_Sx, H_Sx>>: with_host twice with the same pattern; <<H_empty, H_SS>>: the empty Host value;
 \* <<H_AX, H_ax>>: a pattern in upper case before its lower-case twin
-GenHostSeqsQuick == {<<>>, <<H_ax>>, <<H_Sx, H_Sx>>, <<H_ax, H_Sx>>, <<H_Sx, H_ax>>, <<H_aS, H_S8>>, <<H_empty, H_SS>>}
+GenHostSeqsQuick == {<<>>, <<H_ax>>, <<H_Sx, H_Sx>>, <<H_ax, H_Sx>>, <<H_aS, H_S8>>, <<H_empty, H_SS>>}
 GenHostSeqsThorough == {<<>>, <<H_ax>>, <<H_Sx>>, <<H_S8>>, <<H_ax, H_Sx>>, <<H_Sx, H_ax>>, <<H_aS, H_S8>>,
                         <<H_ax8, H_aS>>, <<H_Sx, H_Sx>>, <<H_empty, H_SS>>, <<H_AX, H_ax>>}
 =============================================================================
